@@ -14,8 +14,12 @@ CORPUS = core.VERIF / "harness" / "corpus" / "C16"
 
 TRUSTED = [
     "translator/c16.py (get_dtype band chain -> Gen_C16.src_dtype_chain; the three detector-level models -> "
-    "Gen_C16.src_simple_wiring / src_sar_wiring / src_sar0_wiring; fails closed on any other shape)",
-    "correspondence harness: harness/props/c16.py generators, harness/drivers/c16.py, float.hex() -> (m, e) literals",
+    "Gen_C16.src_simple_wiring / src_sar_wiring / src_sar0_wiring and the parts of the detector each body reads / "
+    "writes -> src_*_touch; fails closed on any other shape)",
+    "correspondence harness: harness/props/c16.py generators, harness/drivers/c16.py, float.hex() -> (m, e) literals; "
+    "histories: the driver realises the operations of Model/AdcHist.v as attribute assignments on one CCD object, "
+    "detector.image.empty() or Detector.empty() followed by putting the signal back, and calls of the three models "
+    "(np.random.normal replaced by a deterministic stand-in during the noisy call)",
     "modelled, not verified: numpy elementwise float64 arithmetic = IEEE-754 round-to-nearest-even (Flocq "
     "BinarySingleNaN), np.clip = minimum(maximum()), np.minimum propagates NaN, np.trunc = round toward zero, "
     "np.nextafter(x, 0.0) = predecessor, Python int -> float64 conversion is correctly rounded and float/int "
@@ -183,7 +187,7 @@ def load_corpus():
 
 def gen_cases(ctx: Ctx, budget: int):
     r = ctx.rng("cases")
-    cases = load_corpus()
+    cases = [c for c in load_corpus() if c["kind"] != "hist"]
     ctx.cov["corpus_cases"] = len(cases)
     # every resolution at least once per converter kind (61 widths): the band structure of the dtype
     for bits in range(4, 65):
@@ -229,7 +233,7 @@ def exhaustive_cases(ctx: Ctx, max_bits: int):
 
 KIND = {"simple": "Simple", "sar": "Sar", "sar0": "Sar0", "sarp": "Sarp"}
 CASE_KEYS = ("kind", "bits", "vmin", "vmax", "xs", "path", "frame", "data_type", "n_strengths", "n_noises",
-             "strengths", "noises", "zs")
+             "strengths", "noises", "zs", "ops")
 
 
 def top_class(c):
@@ -277,6 +281,415 @@ def emit_file(pairs) -> str:
             f"Definition cases : list adc_case := [\n  {body}\n].\n"
             "Eval vm_compute in mismatches src_dtype_chain src_simple_wiring src_sar_wiring src_sar0_wiring cases.\n"
             "Eval vm_compute in violations cases.\n")
+
+
+
+# ------------------------------------------------------------------------------------------ histories
+# One detector object, a sequence of operations on it (setters of detector.characteristics, a new signal frame,
+# emptying the Image bucket, calls of the three detector-level models in any order).  Aimed at state carried from
+# one call to the next: an output type / range / scale / buffer remembered from the previous call, an image or a
+# signal array reused in place.
+
+BANDS = [(4, 8), (9, 16), (17, 32), (33, 64)]         # the resolutions that share one output type
+HIST_RANGES = [(0.0, 1.0), (0.0, 5.0), (0.0, 3.3), (0.0, 10.0), (-5.0, 5.0), (-1.5, 2.25), (2.0, 3.0), (0.0, 0.1),
+               (-0.1, 0.7), (0.0, 6.0), (0.0, 8.934237255150775), (0.0, 15.0)]
+CALL_KINDS = ("simple", "sar", "sar0", "sarp")
+
+
+def band_of(bits):
+    return next(k for k, (lo, hi) in enumerate(BANDS) if lo <= bits <= hi)
+
+
+def bits_in_band(r, k):
+    lo, hi = BANDS[k]
+    return r.choice([lo, hi, r.randrange(lo, hi + 1), r.randrange(lo, hi + 1)])
+
+
+def _bits_key(v):
+    return struct.pack(">d", v)
+
+
+def hist_frame(r, settings, n, frame):
+    """n distinct sorted voltages (exactly representable in the frame's type) that exercise every (bits, range)
+    of `settings`: both ends of every range, +-inf, code transitions of both converter families, interior points."""
+    import numpy as np
+    must, pool = [-math.inf, math.inf], []
+    must += [s[1][1] for s in settings] + [s[1][0] for s in settings] + [ulp_dn(s[1][1]) for s in settings]
+    for bits, (vmin, vmax) in settings:
+        M = 2 ** bits - 1
+        ks = {1, M // 2, M - 1, M} | {r.randrange(0, M + 1) for _ in range(4)} | {min(M, 2 ** r.randrange(0, bits)) for _ in range(2)}
+        pool += transition_points(bits, vmin, vmax, sorted(ks))
+        if vmax > 0:
+            sk = {1, 2 ** (bits - 1), 2 ** bits - 1} | {r.randrange(1, 2 ** bits + 1) for _ in range(3)}
+            pool += sar_transition_points(bits, vmax, sorted(sk))
+        pool += [vmin + (vmax - vmin) * r.random() for _ in range(4)] + [ulp_up(vmin), ulp_up(vmax), vmax + (vmax - vmin)]
+    r.shuffle(pool)
+    out, seen = [], set()
+
+    def conv(v):
+        with np.errstate(all="ignore"):
+            return float(np.array([v], dtype=float).astype(frame).astype(float)[0])
+
+    for v in must[:max(2, n - 3)] + pool:
+        if len(out) >= n:
+            break
+        v = conv(v)
+        if math.isnan(v) or _bits_key(v) in seen or (v == 0.0 and (_bits_key(0.0) in seen or _bits_key(-0.0) in seen)):
+            continue
+        seen.add(_bits_key(v))
+        out.append(v)
+    lo = min(s[1][0] for s in settings)
+    hi = max(s[1][1] for s in settings)
+    tries = 0
+    while len(out) < n and tries < 10000:          # pad (narrow types merge neighbouring voltages)
+        tries += 1
+        v = conv(lo - (hi - lo) + 3 * (hi - lo) * r.random())
+        if math.isfinite(v) and v != 0.0 and _bits_key(v) not in seen:
+            seen.add(_bits_key(v))
+            out.append(v)
+    return sorted(out)
+
+
+def call_op(r, kind, bits, vmax):
+    if kind == "simple":
+        op = dict(op="simple", data_type=None)
+        if r.random() < 0.25:
+            need = 8 if bits <= 8 else 16 if bits <= 16 else 32 if bits <= 32 else 64
+            op["data_type"] = r.choice([w for w in (8, 16, 32, 64) if w >= need])
+        return op
+    if kind == "sar":
+        return dict(op="sar")
+    if kind == "sar0":
+        op = dict(op="sar0", n_strengths=bits, n_noises=bits)
+        if r.random() < 0.1:
+            op[r.choice(["n_strengths", "n_noises"])] = bits + r.choice([-1, 1])     # refused (ValueError): image kept
+        return op
+    st, no, zs = [], [], []
+    for i in range(bits):
+        scale = abs(vmax) * 2.0 ** -(i + 2)
+        st.append(r.choice([0.0, 1.0, -1.0, 0.5, -0.25]) * scale * (1 + r.randrange(0, 8) / 8))
+        no.append(r.choice([0.0, 1.0, 0.5, 0.125]) * scale * (1 + r.randrange(0, 8) / 8))
+        zs.append(r.choice([-1.5, -0.5, 0.0, 0.25, 1.0, 2.0]))
+    return dict(op="sarp", strengths=[hexf(v) for v in st], noises=[hexf(v) for v in no], zs=[hexf(v) for v in zs])
+
+
+def gen_history(r, plan=None, n=None, noise_ops=True):
+    """plan: list of epochs dict(bits, range, kind, empty, replace) -- one converter call per epoch; epoch 0 is the
+    detector as constructed.  Between two calls the settings are changed through the setters, the signal frame is
+    replaced or left in place, the Image bucket is emptied or (mostly) left holding the previous image."""
+    n = n or r.choice([8, 12, 16])
+    if plan is None:
+        k = band_of(r.randrange(4, 65))
+        bits, rv = bits_in_band(r, k), r.choice(HIST_RANGES)
+        plan = []
+        for e in range(r.choice([2, 2, 3, 3, 4])):
+            if e:
+                u = r.random()
+                if u < 0.65:
+                    k = r.choice([j for j in range(4) if j != k])
+                    bits = bits_in_band(r, k)
+                elif u < 0.85:
+                    bits = bits_in_band(r, k)
+                if r.random() < 0.35:
+                    rv = r.choice(HIST_RANGES)
+            plan.append(dict(bits=bits, range=rv, kind=r.choices(CALL_KINDS, [6, 2, 1, 1])[0],
+                             empty=e > 0 and r.random() < 0.3, replace=e > 0 and r.random() < 0.45))
+    for e in plan:
+        if e["range"][1] <= 0:
+            e["kind"] = "simple"
+    # the frame put in place at epoch s stays until the next replacement: it must be interesting for all of them
+    starts = [i for i, e in enumerate(plan) if i == 0 or e.get("replace")]
+    frames = {}
+    for a, s in enumerate(starts):
+        stop = starts[a + 1] if a + 1 < len(starts) else len(plan)
+        ft = r.choices(["float64", "float32", "float16"], [14, 5, 1])[0]
+        frames[s] = (hist_frame(r, [(e["bits"], e["range"]) for e in plan[s:stop]], n, ft), ft)
+    e0 = plan[0]
+    ops = []
+    for i, e in enumerate(plan):
+        pre = []
+        if i:
+            p = plan[i - 1]
+            if e["bits"] != p["bits"] or r.random() < 0.1:
+                pre.append(dict(op="bits", b=e["bits"]))
+            if e["range"] != p["range"]:
+                pre.append(dict(op="range", vmin=hexf(e["range"][0]), vmax=hexf(e["range"][1])))
+            if e.get("replace"):
+                pre.append(dict(op="signal", xs=[hexf(v) for v in frames[i][0]], frame=frames[i][1]))
+            if e.get("empty"):
+                pre.append(dict(op="empty", how=r.choice(["image", "detector"])))
+            r.shuffle(pre)
+            if noise_ops and r.random() < 0.06:
+                # refused by the setters (ValueError), the detector stays as it was
+                bad = r.choice([dict(op="bits", b=r.choice([3, 65, 0])),
+                                dict(op="signal", xs=[hexf(float(v)) for v in range(n + 1)], frame="float64")])
+                pre.insert(r.randrange(len(pre) + 1), bad)
+        call = call_op(r, e["kind"], e["bits"], e["range"][1])
+        if "data_type" in e and call["op"] == "simple":
+            call["data_type"] = e["data_type"]
+        ops += pre + [call]
+    return dict(kind="hist", bits=e0["bits"], vmin=hexf(e0["range"][0]), vmax=hexf(e0["range"][1]),
+                xs=[hexf(v) for v in frames[0][0]], frame=frames[0][1], ops=ops)
+
+
+def gen_histories(ctx: Ctx, r, n_random, all_kind_pairs):
+    """Every ordered pair of output-type bands, the same band twice included (the image of the first call is mostly
+    left in place), the second call cycling through the three models (all 3 x 3 pairs of models when
+    `all_kind_pairs`); then random histories."""
+    hs = []
+    fam = ("simple", "sar", "noisy")
+
+    def kind(f):
+        return r.choice(["sar0", "sarp"]) if f == "noisy" else f
+
+    c = 0
+    for i in range(4):
+        for j in range(4):
+            if all_kind_pairs:
+                pairs = [(a, b) for a in fam for b in fam]
+            elif i == j:
+                pairs = [(b, b) for b in fam]        # the same model twice with the same output type (a reused buffer)
+            else:
+                pairs = [(r.choice(fam), b) for b in fam]
+            for a, b in pairs:
+                rv = HIST_RANGES[c % len(HIST_RANGES)] if c % 3 else r.choice([(0.0, 5.0), (0.0, 10.0), (0.0, 1.0)])
+                rv2 = rv if r.random() < 0.75 else r.choice(HIST_RANGES)
+                plan = [dict(bits=bits_in_band(r, i), range=rv, kind=kind(a)),
+                        dict(bits=bits_in_band(r, j), range=rv2, kind=kind(b), empty=(c % 7 == 6),
+                             replace=r.random() < 0.3)]
+                hs.append(gen_history(r, plan, noise_ops=False))
+                c += 1
+    # exactly one thing changes between two calls of the same model at the same resolution: the voltage range ...
+    for f in fam:
+        for _ in range(6 if all_kind_pairs else 2):
+            bits = r.randrange(4, 65)
+            rv = r.choice(HIST_RANGES)
+            rv2 = r.choice([x for x in HIST_RANGES if x != rv])
+            hs.append(gen_history(r, [dict(bits=bits, range=rv, kind=kind(f)),
+                                      dict(bits=bits, range=rv2, kind=kind(f), replace=r.random() < 0.3)], noise_ops=False))
+    # ... or the data_type argument of simple_adc (given / not given / another width), the image left in place
+    for _ in range(9 if all_kind_pairs else 3):
+        bits = r.randrange(4, 65)
+        need = 8 if bits <= 8 else 16 if bits <= 16 else 32 if bits <= 32 else 64
+        ws = [None] + [w for w in (8, 16, 32, 64) if w >= need]
+        w1 = r.choice(ws)
+        w2 = r.choice([w for w in ws if w != w1] or [None])
+        rv = r.choice(HIST_RANGES)
+        hs.append(gen_history(r, [dict(bits=bits, range=rv, kind="simple", data_type=w1),
+                                  dict(bits=bits, range=rv, kind="simple", data_type=w2),
+                                  dict(bits=bits, range=rv, kind="simple", data_type=None)], noise_ops=False))
+    for _ in range(n_random):
+        hs.append(gen_history(r))
+    return hs
+
+
+def exhaustive_histories(r):
+    """Thorough tier: ALL two-call histories over the band-edge resolutions 8, 9, 16, 17, 32, 33 x all 3 x 3 pairs of
+    models with the first image left in place, and with the image emptied between the calls for every resolution pair
+    and every second model (small frames of 6 voltages)."""
+    edges = (8, 9, 16, 17, 32, 33)
+    fam = ("simple", "sar", "noisy")
+    hs, c = [], 0
+    for emptied in (False, True):
+        for a in (fam if not emptied else ("simple",)):
+            for b in fam:
+                for b1 in edges:
+                    for b2 in edges:
+                        rv = HIST_RANGES[c % len(HIST_RANGES)]
+                        if rv[1] <= 0:
+                            rv = (0.0, 5.0)
+                        ka = (("sar0", "sarp")[c % 2]) if a == "noisy" else a
+                        kb = (("sarp", "sar0")[(c // 2) % 2]) if b == "noisy" else b
+                        hs.append(gen_history(r, [dict(bits=b1, range=rv, kind=ka, data_type=None),
+                                                  dict(bits=b2, range=rv, kind=kb, empty=emptied, data_type=None)],
+                                              n=6, noise_ops=False))
+                        c += 1
+    return hs
+
+
+def settings_at(c, i):
+    """(bits, vmin, vmax, xs) in force just before operation i (the setters' own guards applied)."""
+    bits, vmin, vmax, xs = c["bits"], c["vmin"], c["vmax"], c["xs"]
+    for op in c["ops"][:i]:
+        if op["op"] == "bits" and 4 <= op["b"] <= 64:
+            bits = op["b"]
+        elif op["op"] == "range":
+            vmin, vmax = op["vmin"], op["vmax"]
+        elif op["op"] == "signal" and len(op["xs"]) == len(c["xs"]):
+            xs = op["xs"]
+    return bits, vmin, vmax, xs
+
+
+def emit_op(c, i) -> str:
+    op = c["ops"][i]
+    k = op["op"]
+    if k == "bits":
+        return f"OSetBits {core.cz(op['b'])}"
+    if k == "range":
+        return f"OSetRange {bf(float.fromhex(op['vmin']))} {bf(float.fromhex(op['vmax']))}"
+    if k == "signal":
+        return f"OSetSignal {core.clist(bf(float.fromhex(h)) for h in op['xs'])}"
+    if k == "empty":
+        return "OEmptyImage"
+    if k == "simple":
+        return "OSimple " + ("None" if op.get("data_type") is None else f"(Some {op['data_type']})")
+    if k == "sar":
+        return "OSar"
+    if k == "sar0":
+        return f"OSar0 {op['n_strengths']} {op['n_noises']}"
+    if k == "sarp":
+        return f"OSarp {core.clist(bf(v) for v in perturbations(op))}"
+    raise ValueError(k)
+
+
+def emit_obs(o) -> str:
+    im = o.get("image")
+    if im is None:
+        img = "None"
+    else:
+        img = f"(Some ({im.get('width', 0)}, {core.clist(core.cz(v) for v in im['codes'])}))"
+    return (f"{{| o_raised := {core.cbool(o.get('raised') is not None)}; o_image := {img}; "
+            f"o_sig_ok := {core.cbool(bool(o.get('sig_ok')))} |}}")
+
+
+def emit_hist_case(c, obs) -> str:
+    ops = core.clist(f"({emit_op(c, i)})" for i in range(len(c["ops"])))
+    tr = core.clist(emit_obs(o) for o in obs["trace"])
+    return (f"{{| hc_bits := {c['bits']}; hc_lo := {bf(float.fromhex(c['vmin']))}; hc_hi := {bf(float.fromhex(c['vmax']))}; "
+            f"hc_xs := {core.clist(bf(float.fromhex(h)) for h in c['xs'])};\n     hc_ops := {ops};\n     hc_obs := {tr} |}}")
+
+
+def emit_hist_file(pairs) -> str:
+    body = ";\n  ".join(emit_hist_case(c, o) for c, o in pairs)
+    return ("From Coq Require Import ZArith List.\nFrom Flocq Require Import Core BinarySingleNaN.\n"
+            "From PyxelV Require Import Lib.B64 Model.Adc Model.AdcHist.\nFrom PyxelGen Require Import Gen_C16.\n"
+            "Import ListNotations.\nOpen Scope Z_scope.\n"
+            f"Definition cases : list hist_case := [\n  {body}\n].\n"
+            "Eval vm_compute in hist_mismatches src_dtype_chain src_simple_wiring src_sar_wiring src_sar0_wiring cases.\n"
+            "Eval vm_compute in hist_violations cases.\n")
+
+
+def judge_histories(ctx: Ctx, cases, tag, per=10, record=True, alone=False):
+    """Run histories on the implementation, compare with the model and judge them, both inside Coq.
+    Returns (mismatching [(case, obs)], violating [(case, obs, op index)], all pairs).
+    alone: every history in a fresh process of its own (nothing left over from other cases)."""
+    if not cases:
+        return [], [], []
+    obs = core.run_driver(ctx, "c16", cases, workers=8, chunk=1) if alone else core.run_driver(ctx, "c16", cases)
+    pairs = []
+    for c, o in zip(cases, obs):
+        if "trace" not in o or len(o["trace"]) != len(c["ops"]):
+            ctx.broken.append(Broken("correspondence", "implementation driver failed (history)", str(o)[:500], c))
+            continue
+        pairs.append((c, o))
+    files = {f"{tag}_{k // per:03d}": emit_hist_file(pairs[k:k + per]) for k in range(0, len(pairs), per)}
+    res = core.coq_eval_many(ctx, files, timeout=900)
+    mism, viol = [], []
+    for k, name in enumerate(sorted(files)):
+        ok, evals, se = res[name]
+        chunk = pairs[k * per:(k + 1) * per]
+        if not ok or len(evals) != 2:
+            ctx.broken.append(Broken("correspondence", f"case file {name}.v did not evaluate", core.tail(se, 15)))
+            continue
+        mism += [chunk[i] for i in core.parse_int_list(evals[0])]
+        viol += [(chunk[v // 1000][0], chunk[v // 1000][1], v % 1000) for v in core.parse_int_list(evals[1])]
+    if record:
+        for c, o in pairs:
+            ctx.count("histories")
+            calls = [(i, op) for i, op in enumerate(c["ops"]) if op["op"] in CALL_KINDS]
+            ctx.dist("hist_calls_per_history", len(calls))
+            prev = None
+            for i, op in calls:
+                bits, _, _, xs = settings_at(c, i)
+                ctx.count("evaluations", len(xs))
+                ctx.count("history_calls")
+                ctx.dist("hist_call_kind", op["op"] + ("+data_type" if op.get("data_type") else ""))
+                if prev is not None:
+                    pb = settings_at(c, prev)[0]
+                    between = c["ops"][prev + 1:i]
+                    move = "same_type" if band_of(pb) == band_of(bits) else "wider_type" if bits > pb else "narrower_type"
+                    ctx.dist("hist_between_calls", move + ("/image_emptied" if any(b["op"] == "empty" for b in between)
+                                                           else "/image_left"))
+                    ctx.dist("hist_signal_between_calls", "replaced" if any(b["op"] == "signal" for b in between) else "left")
+                prev = i
+    return mism, viol, pairs
+
+
+def shrink_history(ctx: Ctx, c, obs, i):
+    """Minimal history that still breaks the specification at its last operation: cut after the violating call,
+    then drop earlier operations one at a time (each candidate is re-run on the implementation and re-judged in Coq)."""
+    cur, cur_obs = dict(c, ops=c["ops"][:i + 1]), dict(trace=obs["trace"][:i + 1])
+    for rnd in range(5):
+        m = len(cur["ops"])
+        cands = [dict(cur, ops=cur["ops"][:j] + cur["ops"][j + 1:]) for j in range(m - 1)]
+        if not cands:
+            break
+        _, viol, _ = judge_histories(ctx, cands, f"shrink{rnd}", per=12, record=False, alone=True)
+        hit = next(((cc, oo) for cc, oo, k in viol if k == len(cc["ops"]) - 1), None)
+        if hit is None:
+            break
+        cur, cur_obs = hit
+    return cur, cur_obs
+
+
+def hist_to_violation(c, obs, i) -> Violation:
+    bits, vmin, vmax, xs = settings_at(c, i)
+    op = c["ops"][i]
+    o = obs["trace"][i]
+    im = o.get("image")
+    pseudo = dict(kind=op["op"] if op["op"] != "sar0" else "sar", bits=bits, vmin=vmin, vmax=vmax, xs=xs)
+    if o.get("raised"):
+        clause, idx, extra = "raises", None, dict(error=o["raised"])
+    elif im is None:
+        clause, idx, extra = "no_image_stored", None, {}
+    elif "width" not in im:
+        clause, idx, extra = "dtype_not_unsigned", None, dict(dtype=im.get("bad_dtype"))
+    else:
+        clause, idx, extra = classify(pseudo, dict(width=im["width"], codes=im["codes"], twin=im["codes"]))
+    calls_before = [k for k in range(i) if c["ops"][k]["op"] in CALL_KINDS]
+    case = dict(c)
+    case["settings_at_violation"] = dict(operation=i, bits=bits, vmin=float.fromhex(vmin), vmax=float.fromhex(vmax),
+                                         xs=[float.fromhex(h) for h in xs], pixels=idx)
+    sig = dict(clause=clause, kind="hist", call=op["op"], after_calls=min(len(calls_before), 2), **extra)
+    band = "4..53" if bits <= 53 else ("54..63" if bits <= 63 else "64")
+    sig["bits_band"] = band
+    return Violation(clause=clause, case=case, observed=dict(trace=obs["trace"]),
+                     expected=f"after operation #{i} ({op['op']}): codes in 0..2^{bits}-1 in an unsigned type that holds "
+                              f"2^{bits}-1, sorted, 0 at/below vmin, 2^{bits}-1 at/above vmax",
+                     what=f"history of {len(c['ops'])} operations on one detector; operation #{i} ({op['op']}) at bits={bits} "
+                          f"range=({float.fromhex(vmin)!r}, {float.fromhex(vmax)!r}) after {len(calls_before)} earlier "
+                          f"call(s): {clause}", sig=sig)
+
+
+def run_histories(ctx: Ctx, hs, tag="h"):
+    """Correspondence + specification over histories; appends violations / broken obligations."""
+    mism, viol, pairs = judge_histories(ctx, hs, tag)
+    if viol:
+        # a replay must fail by itself: run the violating histories again, each alone in a fresh process (the histories of
+        # a run share worker processes, and a converter may keep something at module level); shrink what reproduces
+        cand = [dict(c, ops=c["ops"][:i + 1]) for c, _, i in viol[:12]]
+        _, again, _ = judge_histories(ctx, cand, tag + "_alone", per=12, record=False, alone=True)
+        done = []
+        for k, (c, o, i) in enumerate(again):
+            if k < 3:
+                c, o = shrink_history(ctx, c, o, i)
+                i = len(c["ops"]) - 1
+            v = hist_to_violation(c, o, i)
+            mark_alone(v, True)
+            done.append(v)
+        ctx.violations += done
+        confirmed = {json.dumps(c["ops"], sort_keys=True) for c, _, _ in again}
+        for k, (c, o, i) in enumerate(viol):
+            if json.dumps(c["ops"][:i + 1], sort_keys=True) not in confirmed:
+                v = hist_to_violation(dict(c, ops=c["ops"][:i + 1]), dict(trace=o["trace"][:i + 1]), i)
+                if k < 12:
+                    mark_alone(v, False)
+                ctx.violations.append(v)
+    for c, o in mism:
+        ctx.broken.append(Broken("correspondence", "Model/AdcHist.v vs implementation (history on one detector)",
+                                 f"model and implementation differ on a history of {len(c['ops'])} operations",
+                                 dict(case=c, observed=o)))
+    return mism, viol, pairs
 
 
 # ------------------------------------------------------------------------------------------ classification
@@ -427,7 +840,28 @@ def run(ctx: Ctx):
                         xs=c["xs"][:5], codes=o.get("codes", [])[:5], n=len(c["xs"])))
     for c, o in viol:
         ctx.violations.append(to_violation(c, o))
+    # histories of calls on one detector object (corpus first)
+    hs = [c for c in load_corpus() if c["kind"] == "hist"]
+    ctx.cov["corpus_histories"] = len(hs)
+    hs += gen_histories(ctx, ctx.rng("histories"), ctx.budget(16, 100), all_kind_pairs=not ctx.quick)
+    if not ctx.quick:
+        ex = exhaustive_histories(ctx.rng("histories_exh"))
+        ctx.cov["exhaustive_two_call_histories"] = len(ex)
+        hs += ex
+    hmism, _, hpairs = run_histories(ctx, hs)
+    ctx.cov["histories_validated_against_impl"] = len(hpairs)
+    ctx.cov["history_disagreements_checked"] = len(hmism)
+    ctx.cov["history_rule"] = ("histories on one detector object: 2..4 converter calls (any of the three models, data_type "
+                               "given or not) separated by setter calls (resolution across / inside an output-type band, "
+                               "voltage range), a new signal frame or the old one left in place, the Image bucket emptied "
+                               "or left holding the previous image; every ordered pair of output-type bands with the image "
+                               "left in place; after EVERY operation the raised flag and the whole image are compared with "
+                               "the model, every call is judged against the specification for the settings then in force")
+    for c, o in hpairs[:2]:
+        ctx.sample(dict(history=dict(bits=c["bits"], vmin=c["vmin"], vmax=c["vmax"], n=len(c["xs"])),
+                        ops=[{k: v for k, v in op.items() if k not in ("xs", "strengths", "noises", "zs")} for op in c["ops"]]))
     order_violations(ctx)
+    confirm_in_isolation(ctx)
     (ctx.build / "mismatches.json").write_text(__import__("json").dumps([dict(case=c, observed=o) for c, o in mism], indent=1))
     for c, o in mism:
         ctx.broken.append(Broken("correspondence", "Model/Adc.v vs implementation",
@@ -457,6 +891,72 @@ def order_violations(ctx: Ctx):
     ctx.violations[:] = first + rest
 
 
+NOT_ALONE = (" [observed in the run, but NOT reproduced when this case runs alone in a fresh process: the outcome "
+             "depends on conversions that ran earlier in the same process]")
+
+
+def mark_alone(v: Violation, ok: bool):
+    v.alone = "reproduced" if ok else "not_reproduced"
+    v.case = dict(v.case, alone=v.alone)
+    if not ok:
+        v.what += NOT_ALONE
+
+
+def sig_key(v: Violation) -> str:
+    return json.dumps(v.sig, sort_keys=True) + v.clause       # what core.finish groups the report lines by
+
+
+def confirm_in_isolation(ctx: Ctx, limit=32):
+    """A replay must fail by itself.  The cases of one run share a few worker processes, so a converter that keeps
+    something at module level (a remembered type, range or buffer) can spoil a case through the cases that ran before
+    it in the same process.  For every kind of violation (signature) up to two violating cases are run again, each
+    alone in a fresh process, and judged again inside Coq.  Kinds with a case that still violates are reported first,
+    with that case; kinds whose cases do not reproduce alone are reported (and say so) only when nothing reproduces."""
+    if not ctx.violations:
+        return
+    groups: dict[str, list] = {}
+    for v in ctx.violations:
+        groups.setdefault(sig_key(v), []).append(v)
+    vs = []
+    for g in groups.values():
+        if not any(getattr(v, "alone", None) == "reproduced" for v in g):
+            vs += [v for v in g if getattr(v, "alone", None) is None][:2]
+    vs = vs[:limit]
+    if vs:
+        cases = [{k: v.case[k] for k in CASE_KEYS if k in v.case} for v in vs]
+        obs = core.run_driver(ctx, "c16", cases, workers=min(8, len(cases)), chunk=1)
+        fr = [(k, c, o) for k, (c, o) in enumerate(zip(cases, obs)) if c["kind"] != "hist" and ("codes" in o or "raise" in o)]
+        hi = [(k, c, o) for k, (c, o) in enumerate(zip(cases, obs)) if c["kind"] == "hist" and "trace" in o
+              and len(o["trace"]) == len(c["ops"])]
+        files = {}
+        if fr:
+            files["iso_f"] = emit_file([(c, o) for _, c, o in fr])
+        if hi:
+            files["iso_h"] = emit_hist_file([(c, o) for _, c, o in hi])
+        res = core.coq_eval_many(ctx, files, timeout=600)
+        still = set()
+        if fr and res["iso_f"][0] and len(res["iso_f"][1]) == 2:
+            still |= {fr[i][0] for i in core.parse_int_list(res["iso_f"][1][1])}
+        if hi and res["iso_h"][0] and len(res["iso_h"][1]) == 2:
+            still |= {hi[v // 1000][0] for v in core.parse_int_list(res["iso_h"][1][1])}
+        for k, v in enumerate(vs):
+            mark_alone(v, k in still)
+    good, unknown, bad = [], [], []
+    for g in groups.values():
+        rep = [v for v in g if getattr(v, "alone", None) == "reproduced"]
+        unk = [v for v in g if getattr(v, "alone", None) is None]
+        if rep:
+            good += rep + unk
+        elif unk and not any(getattr(v, "alone", None) == "not_reproduced" for v in g):
+            unknown += unk
+        else:
+            bad += [v for v in g if getattr(v, "alone", None) == "not_reproduced"] + unk
+    ctx.cov["violation_kinds_confirmed_alone"] = sum(1 for g in groups.values()
+                                                     if any(getattr(v, "alone", None) == "reproduced" for v in g))
+    ctx.cov["violation_kinds_not_reproduced_alone"] = len({sig_key(v) for v in bad})
+    ctx.violations[:] = good + unknown + (bad if not good else [])
+
+
 def new_violations(ctx: Ctx):
     fs = core.load_findings(ctx.prop)
     return [v for v in ctx.violations if not any(core.finding_matches(e, v) for e in fs)]
@@ -476,7 +976,12 @@ def search(ctx: Ctx):
     mism, viol, pairs = correspondence(ctx, cases, tag="s")
     for c, o in viol:
         ctx.violations.append(to_violation(c, o))
+    if not new_violations(ctx):
+        # state carried from one call to the next on the same detector: every pair of models x every pair of bands
+        _, _, hp = run_histories(ctx, gen_histories(ctx, r, 60, all_kind_pairs=True), tag="sh")
+        ctx.cov["search_histories"] = len(hp)
     order_violations(ctx)
+    confirm_in_isolation(ctx)
     ctx.cov["search_frames"] = len(pairs)
 
 
@@ -493,10 +998,19 @@ def replay(ctx: Ctx, rp: dict) -> int:
     from translator import c16 as tr
     gen = ctx.build / "gen"
     gen.mkdir(parents=True, exist_ok=True)
-    (gen / "Gen_C16.v").write_text(tr.translate(ctx.repo))
+    try:
+        (gen / "Gen_C16.v").write_text(tr.translate(ctx.repo))
+    except core.TranslationError:
+        (gen / "Gen_C16.v").write_text(tr.FALLBACK)      # the specification does not depend on the regenerated tables
     core.ensure_lib(ctx)
     core.coqc(ctx, gen / "Gen_C16.v", [(gen, "PyxelGen")])
-    ok, evals, se = core.coq_eval(ctx, "replay", emit_file([(case, obs)]))
+    if case.get("kind") == "hist":
+        if "trace" not in obs:
+            print("the implementation driver failed on this history")
+            return 1
+        ok, evals, se = core.coq_eval(ctx, "replay", emit_hist_file([(case, obs)]))
+    else:
+        ok, evals, se = core.coq_eval(ctx, "replay", emit_file([(case, obs)]))
     bad = ok and core.parse_int_list(evals[1]) != []
     print("specification (evaluated in Coq):", "VIOLATED" if bad else "holds")
     return 1 if bad else 0
@@ -513,7 +1027,13 @@ META = dict(
         "equality; whole frames of the model satisfy the specification used to judge the implementation. The model is "
         "tied to the code by evaluating it inside Coq against apply_simple_adc / apply_sar_adc / the noisy variant "
         "with zero noise and the detector-level models on float64, float32 and float16 frames of code-transition "
-        "voltages +-1 ulp; the implementation's codes are judged inside Coq against the specification."),
+        "voltages +-1 ulp; the implementation's codes are judged inside Coq against the specification. Histories on ONE "
+        "detector object (setters of the resolution / voltage range, a new signal frame, the Image bucket emptied or left "
+        "holding the previous image, the three models called in any order) are a model of their own (Model/AdcHist.v): "
+        "proved for every initial state and every history that a call never changes the settings, that every allowed call "
+        "stores a defined image meeting the specification of the settings in force at that call whatever the bucket held "
+        "before, and that the model's trace passes the judge; generated histories (every ordered pair of output-type "
+        "bands, every model) are compared with the model after every operation and judged, inside Coq."),
     level_note=(
         "Trusted: Coq kernel + vm_compute; Flocq's IEEE-754 formalisation (its theorems use the real-number axioms and "
         "classic); translator/c16.py; the correspondence harness; numpy float64 = IEEE-754 binary64 round-to-nearest-even, "
